@@ -71,7 +71,7 @@ def _img(shape, origin, payload=0):
     vs = [0.5, 2.0, 0.25][:dim]
     kw = dict(space_dim=dim, dimensions=[vs[a] * shape[a] for a in range(dim)], scalar=(payload == 0))
     if origin == "user":
-        kw["origin"] = [3.0, -2.0, 5.0][:dim]
+        kw["origin"] = [3.125, -2.75, 5.0625][:dim]  # dyadic, but not on the voxel lattice of any axis
     elif origin == "user-int":
         kw["origin"] = [3, -2, 5][:dim]  # the same corner spelled with ints (integer-typed origin array)
     return darsia.Image(data, **kw), vs
@@ -263,6 +263,22 @@ def run_case(case, r):
                 continue
             r.check(b.img.shape == want.shape and np.array_equal(b.img, want), cell, "slice at a coordinate inside voxel layer c, addressed by Cartesian name, is layer c of the partner matrix axis", cut=cut, coordinate=coord, got=b.img, want=want)
             r.check(_meta_equal(a, b), cell, "... with the same metadata as slicing by index", a=_meta(a), b=_meta(b))
+        # cut coordinates handed over as integers (Python int, NumPy integer): every integer coordinate
+        # lying strictly inside a voxel layer of this axis selects that layer, like the float of the same value
+        o_c = float(np.asarray(img.origin, dtype=float)[car.index(c)])
+        sgn = conv[m][1]
+        for K in range(int(np.floor(min(o_c, o_c + sgn * shape[p] * vs[p]))) - 1, int(np.ceil(max(o_c, o_c + sgn * shape[p] * vs[p]))) + 2):
+            rel = sgn * (K - o_c) / vs[p]
+            if abs(rel - round(rel)) < 1e-6 or not (0 <= np.floor(rel) < shape[p]):
+                continue
+            layer = int(np.floor(rel))
+            want = np.take(img.img, layer, axis=p)
+            for Kv in (int(K), np.int64(K), np.int32(K), float(K)):
+                try:
+                    b = img.slice(Kv, c)
+                    r.check(b.img.shape == want.shape and np.array_equal(b.img, want), f"C20/Image.slice/dim={dim}/axis={c}/integer-cut", "a cut coordinate given as an integer selects the layer containing that coordinate (as the float of the same value does)", coordinate=K, type=type(Kv).__name__, layer=layer, got=b.img, want=want)
+                except Exception as e:
+                    r.fail(f"C20/Image.slice/dim={dim}/axis={c}/integer-cut", "a cut coordinate may be given as an integer", coordinate=K, type=type(Kv).__name__, exception=repr(e))
     # ---- the same comparison after the image's origin has been changed in place (the
     # coordinate system has been used above): addressing by Cartesian name must follow
     # the current origin
